@@ -12,9 +12,9 @@ slot k, the built-in default font included.  Here:
 * `embedded_font_is_the_font_of_the_page` (XBin / ADF / IDF, every picture the writers accept, no domain hypothesis): the
   font block of the file holds the glyph bytes of the font in the slot of the FIRST PAGE IN USE — never those of slot 0
   unless the cells are on page 0;
-* `adf_idf_font_rt_page_partial` — ADF / IDF, cells on page k: the font of slot k comes back as slot 0, whatever other
-  font slot 0 holds.  PARTIAL: slot 0 has to hold an 8x16 font too (findings `adf_font_height_of_slot0` /
-  `idf_font_height_of_slot0`, witnessed by `adf_slot0_height_counterexample`);
+* `adf_idf_font_rt_page` — ADF / IDF, cells on page k: the font of slot k comes back as slot 0, whatever other font slot 0
+  holds, of whatever size (FULL since the two repairs of the writers' size test, `fixed:` `adf_font_height_of_slot0` /
+  `idf_font_height_of_slot0`; the former counterexample is `adf_slot0_height_repaired`);
 * `icy_default_font_in_any_slot` — IcyDraw: the built-in default font stored in ANY slot has its own `FONT_k` chunk and is
   read back in that slot (instance of `icy_font_rt`; the loader pre-fills slot 0 only).
 
@@ -86,12 +86,13 @@ theorem embedded_font_is_the_font_of_the_page (f : Fmt) (o : Opts) (date : List 
 
 /-- **ADF / IDF, cells on font page k** (any k; with or without a SAUCE record; IDF raw or run-length coded): the 8x16 font
     in SLOT k — not the one in slot 0 — is embedded and comes back, glyph for glyph, as slot 0 of the loaded buffer,
-    whatever font slot 0 holds next to it.
-    PARTIAL — full statement: `boxOkPage` without its clause that slot 0 holds a font of height 16 (and, without SAUCE,
-    without `looksLikeSauce bytes = false`: C05 finding `<fmt>:content-reads-as-sauce`).  Excluded and FALSE on the code
-    as it is: slot 0 empty (`get_font_dimensions` panics) or not 8x16 (the writer refuses the picture) — the writers test
-    slot 0 but embed slot k; findings `adf_font_height_of_slot0`, `idf_font_height_of_slot0`. -/
-theorem adf_idf_font_rt_page_partial (fm : Fmt) (hfm : fm = .adf ∨ fm = .idf) (o : Opts) (date : List Nat) (k : Nat) (p : Pic)
+    whatever font slot 0 holds next to it — of ANY size: `boxOkPage` only asks that slot 0 holds some font (every
+    `Buffer::new` has one; `write_sauce_info` takes the font name of the SAUCE record from it).
+    FULL strength since `fix: ArtWorx writer tests the font height of slot 0 …` / `fix: iCE Draw writer tests the font size
+    of slot 0 …` (was `adf_idf_font_rt_page_partial`, which had to assume an 8x16 font in slot 0 too: the writers tested
+    slot 0 but embedded slot k).  What stays excluded is C05's: saved WITHOUT a SAUCE record, a file whose last 128 bytes
+    read as one (`looksLikeSauce bytes = false`, finding `<fmt>:content-reads-as-sauce`, a property of the container). -/
+theorem adf_idf_font_rt_page (fm : Fmt) (hfm : fm = .adf ∨ fm = .idf) (o : Opts) (date : List Nat) (k : Nat) (p : Pic)
     (hok : boxOkPage fm k p = true) (hdate : dateOk date = true) (name : List Nat) (f : BitFont) (wf : WfFont f 16)
     (h256 : f.glyphs.length = 256) (hp : lookupFont p.fonts k = boxFont name f) :
     ∃ bytes, save fm o date p = .ok bytes ∧
@@ -112,10 +113,10 @@ def idx16 : BitFont := { w := 8, h := 16, length := 256, glyphs := (List.range 2
 def idx16Box : BinFormats.Font := ⟨[70], 16, (List.range 256).flatMap fun g => List.replicate 16 g⟩
 def cellOn (page x : Nat) : Cell := ⟨x % 256, ⟨x % 16, (x / 3) % 16, 0, page⟩⟩
 /-- 80 x 1, every cell on page 3; slot 0 = the built-in default font, slot 3 = `idx16` -/
-def adfPagePic : Pic := ⟨80, 1, [(List.range 80).map (cellOn 3)], .ice, dosPalette, [(0, defaultFont), (3, idx16Box)]⟩
-/-- 3 x 2 on page 300; slot 0 = an all-zero 8x16 font -/
+def adfPagePic : Pic := ⟨80, 1, [(List.range 80).map (cellOn 3)], .ice, dosPalette, [(0, defaultFont), (3, idx16Box)], none⟩
+/-- 3 x 2 on page 300; slot 0 = an all-zero 8x14 font (not a font the format can hold — it is not the one embedded) -/
 def idfPagePic : Pic := ⟨3, 2, [(List.range 3).map (cellOn 300), (List.range 3).map (cellOn 300)], .ice, dosPalette,
-  [(300, idx16Box), (0, ⟨[90], 16, List.replicate 4096 0⟩)]⟩
+  [(300, idx16Box), (0, ⟨[90], 14, List.replicate 3584 0⟩)], none⟩
 
 example : boxOkPage .adf 3 adfPagePic = true := by decide +kernel
 example : boxOkPage .idf 300 idfPagePic = true := by decide +kernel
@@ -143,24 +144,26 @@ example : (match save .idf ⟨false, true⟩ pageDate idfPagePic with
 
 /-- 80 x 1 on page 3; slot 0 = the built-in default font (8x16), slot 3 = an 8x14 font -/
 def adfBadPic : Pic := ⟨80, 1, [(List.range 80).map (cellOn 3)], .ice, dosPalette,
-  [(0, defaultFont), (3, ⟨[70], 14, List.replicate 3584 7⟩)]⟩
+  [(0, defaultFont), (3, ⟨[70], 14, List.replicate 3584 7⟩)], none⟩
 /-- 80 x 1 on page 3; slot 0 = an 8x14 font, slot 3 = `idx16` (8x16) -/
 def adfRefusedPic : Pic := ⟨80, 1, [(List.range 80).map (cellOn 3)], .ice, dosPalette,
-  [(0, ⟨[70], 14, List.replicate 3584 7⟩), (3, idx16Box)]⟩
+  [(0, ⟨[70], 14, List.replicate 3584 7⟩), (3, idx16Box)], none⟩
 
-/-- **The excluded point** (findings `adf_font_height_of_slot0` / `idf_font_height_of_slot0`): the height test looks at slot 0,
-    the embedded font is the one of page 3.  An 8x14 font on page 3 next to an 8x16 font in slot 0 is ACCEPTED and a file
-    with a 3584-byte font block is written, which the loader rejects; an 8x16 font on page 3 next to an 8x14 font in slot 0
-    — a picture the format can hold — is REFUSED; the same for IDF. -/
-theorem adf_slot0_height_counterexample :
-    (match save .adf ⟨false, false⟩ [] adfBadPic with
-      | .ok b => b.length == 1 + 192 + 3584 + 160 && (match fromBytes .adf b with | .err => true | _ => false)
+/-- **The former counterexample** (findings `adf_font_height_of_slot0` / `idf_font_height_of_slot0`, repaired): the size test
+    now looks at the font that is embedded.  An 8x14 font on page 3 next to an 8x16 font in slot 0 is REFUSED (before: a file
+    with a 3584-byte font block was written, which the loader rejects); an 8x16 font on page 3 next to an 8x14 font in slot 0
+    — a picture the format can hold — is ACCEPTED (before: refused) and its font comes back; the same for IDF. -/
+theorem adf_slot0_height_repaired :
+    (match save .adf ⟨false, false⟩ [] adfBadPic with | .err => true | _ => false) = true ∧
+    (match save .adf ⟨false, false⟩ [] adfRefusedPic with
+      | .ok b => b.length == 1 + 192 + 4096 + 160 &&
+          (match fromBytes .adf b with | .ok g => (lookupFont g.fonts 0).map unboxFont == some idx16 | _ => false)
       | _ => false) = true ∧
-    (match save .adf ⟨false, false⟩ [] adfRefusedPic with | .err => true | _ => false) = true ∧
-    (match save .idf ⟨false, false⟩ [] adfBadPic with
-      | .ok b => b.length == 12 + 160 + 3584 + 48
-      | _ => false) = true ∧
-    (match save .idf ⟨false, false⟩ [] adfRefusedPic with | .err => true | _ => false) = true := by
+    (match save .idf ⟨false, false⟩ [] adfBadPic with | .err => true | _ => false) = true ∧
+    (match save .idf ⟨false, false⟩ [] adfRefusedPic with
+      | .ok b => b.length == 12 + 160 + 4096 + 48 &&
+          (match fromBytes .idf b with | .ok g => (lookupFont g.fonts 0).map unboxFont == some idx16 | _ => false)
+      | _ => false) = true := by
   refine ⟨?_, ?_, ?_, ?_⟩ <;> decide +kernel
 
 /-! ### IcyDraw: a chunk for every slot, the built-in default font included -/
